@@ -7,7 +7,7 @@
 //!       pending), A  after the first writer is gone, the waiting writer gets the zone
 //!   O0 / O1   open the writer without / with diff tracking
 //!   U..  update_rrset / D.. remove_rrset on three owner names (one of them new, one holding two records)
-//!   C   commit(false) (the writer stays and can be opened again), X  drop the writer without commit
+//!   C   commit(true) (the SOA serial is bumped so that a diff can be built; the writer stays and can be opened again), X  drop the writer without commit
 //! is run on a fresh three-name zone and compared after *every* step with a map model: each held reader walks and
 //! queries exactly the content that was committed when it was taken; a new reader sees exactly the committed
 //! content (nothing staged, nothing abandoned); a commit publishes exactly the staged content; the diff handed out
@@ -249,7 +249,7 @@ impl World {
             Op::Dy => self.edit("y", None)?,
             Op::C => {
                 self.node = None;
-                let diff = now(self.writer.as_mut().unwrap().commit(false))?.map_err(|e| e.to_string())?;
+                let diff = now(self.writer.as_mut().unwrap().commit(true))?.map_err(|e| e.to_string())?;
                 let new = self.staged.take().unwrap_or_else(|| self.committed.clone());
                 if self.opens == (1, true) {
                     // exactly one open, with diff tracking: the diff must turn the old content into the new one
